@@ -86,7 +86,7 @@ class G(object):
                 d[sorted(v.arches)[0]] = ""
         return v
 
-    def composeinfo(self, nvariants=None, layered=None, maxdepth=3):
+    def composeinfo(self, nvariants=None, layered=None, maxdepth=3, dashed=True):
         r = self.rng
         ci = self.CI.ComposeInfo()
         self.fill_compose(ci.compose)
@@ -110,7 +110,7 @@ class G(object):
                 p.add(v)
                 nodes.append((v, d + 1))
             else:
-                if used_top and r.random() < 0.25:
+                if dashed and used_top and r.random() < 0.25:
                     # dashed top-level UID on a childless variant (documented 'Server-optional' case)
                     base = r.choice(sorted(used_top))
                     v = self.variant(ci, base + vid, dashed_uid="%s-%s" % (base, vid), vtype="optional")
